@@ -28,7 +28,13 @@ import (
 // DATABASE, it computes what the node would do if (0) it force-closed, (1) the
 // counterparty's current or (2) pending commitment confirmed, runs btcd's
 // script interpreter over every spend and records raw facts as `CloseCheck`
-// lines.  It judges nothing: spec/Channel/ChannelCloseTrace.tla does.
+// lines.  Every line also carries the party's ANCHOR resolution for that
+// commitment - the one inside the close summary and the one
+// NewAnchorResolutions() returns before confirmation (.Local / .Remote /
+// .RemotePending) - swept the way contractcourt's anchorResolver does.
+// It judges nothing: spec/Channel/ChannelCloseTrace.tla does.  (The same
+// record, obtained through a real chainWatcher, is written by
+// harness/contractcourt/c05_watch_test.go.)
 
 type c5Res struct {
 	Dir   int   `json:"dir"`   // 0 = HTLC offered by p (outgoing resolution), 1 = received
@@ -62,6 +68,15 @@ type c5Self struct {
 	Desc    int   `json:"desc"`
 }
 
+// c5Anc: the resolution of p's ANCHOR output on the commitment in question.
+type c5Anc struct {
+	Present int   `json:"present"` // a resolution was returned
+	Idx     int64 `json:"idx"`     // CommitAnchor.Index
+	Val     int64 `json:"val"`     // value in the sign descriptor
+	Desc    int   `json:"desc"`    // descriptor output == the real output at that index of that transaction
+	Ok      int   `json:"ok"`      // the anchor resolver's sweep input accepted by the interpreter
+}
+
 type c5Line struct {
 	vEv
 	Err    string  `json:"err"`
@@ -74,6 +89,54 @@ type c5Line struct {
 	Claim  int64   `json:"claim"`
 	Note   string  `json:"note"`
 	Live   int     `json:"live"` // 1: computed on the LIVE channel object (not judged differently)
+	Anc    c5Anc   `json:"anc"`  // anchor resolution inside the close summary
+	APre   c5Anc   `json:"apre"` // NewAnchorResolutions() before confirmation: .Local / .Remote / .RemotePending
+	Via    int     `json:"via"`  // 0: lnwallet called directly; 1: through contractcourt's chainWatcher
+	CKey   int     `json:"ckey"` // via = 1: which commitment the watcher took the spend for (0 local, 1 remote, 2 pending)
+	NSet   int     `json:"nset"` // via = 1: number of HTLCs in the CommitSet entry of that commitment
+}
+
+// c5Anchor: what anchorResolver.Launch does with an AnchorResolution, run
+// through the interpreter against the real transaction.
+func c5Anchor(ar *AnchorResolution, tx *wire.MsgTx, ct channeldb.ChannelType, signer input.Signer) c5Anc {
+	a := c5Anc{Idx: -1, Desc: -1, Ok: -1}
+	if ar == nil {
+		return a
+	}
+	a.Present, a.Idx, a.Desc, a.Ok = 1, int64(ar.CommitAnchor.Index), 0, 0
+	sd := &ar.AnchorSignDescriptor
+	if sd.Output != nil {
+		a.Val = sd.Output.Value
+	}
+	if tx == nil || ar.CommitAnchor.Hash != tx.TxHash() || int(ar.CommitAnchor.Index) >= len(tx.TxOut) {
+		return a
+	}
+	prev := tx.TxOut[ar.CommitAnchor.Index]
+	a.Desc = c5SameOut(sd.Output, prev)
+	wt := input.CommitmentAnchor
+	if ct.IsTaproot() {
+		wt = input.TaprootAnchorSweepSpend
+	}
+	inp := input.MakeBaseInput(&ar.CommitAnchor, wt, sd, c5Height, nil)
+	a.Ok = c5Bit(c5Spend(&inp, signer, prev, 0, 0))
+	return a
+}
+
+// c5AnchorPre: the anchor resolution the node uses BEFORE confirmation (CPFP of
+// whichever commitment is in the mempool): NewAnchorResolutions of the channel.
+func c5AnchorPre(sh *LightningChannel, w int, tx *wire.MsgTx) c5Anc {
+	ars, err := sh.NewAnchorResolutions()
+	if err != nil || ars == nil {
+		return c5Anc{Present: -1, Idx: -1, Desc: -1, Ok: -1}
+	}
+	ar := ars.Local
+	switch w {
+	case 1:
+		ar = ars.Remote
+	case 2:
+		ar = ars.RemotePending
+	}
+	return c5Anchor(ar, tx, sh.channelState.ChanType, sh.Signer)
 }
 
 // c5Fault: ForceClose of a freshly reloaded channel whose signer fails at its
@@ -256,6 +319,9 @@ func (c *c5Ctx) closeLocal(p string, sh *LightningChannel) c5Line {
 	ln := c5Line{vEv: vEv{A: "CloseCheck", P: p, X: 0}, Res: []c5Res{}, Commit: -1,
 		H: int64(sh.channelState.LocalCommitment.CommitHeight)}
 	ln.Self = c5Self{Ok: -1, Lo: -1, Cl: -1, Desc: -1}
+	ln.Anc = c5Anc{Idx: -1, Desc: -1, Ok: -1}
+	ln.CKey = -1
+	ln.APre = c5AnchorPre(sh, 0, sh.channelState.LocalCommitment.CommitTx)
 	sum, err := sh.ForceClose()
 	if err != nil {
 		ln.Err = "ForceClose: " + err.Error()
@@ -270,6 +336,7 @@ func (c *c5Ctx) closeLocal(p string, sh *LightningChannel) c5Line {
 		return ln
 	}
 	commitHash := sum.CloseTx.TxHash()
+	ln.Anc = c5Anchor(res.AnchorResolution, sum.CloseTx, ct, sh.Signer)
 	htlcs := sh.channelState.LocalCommitment.Htlcs
 	ln.NOut, ln.NIn = len(res.HtlcResolutions.OutgoingHTLCs), len(res.HtlcResolutions.IncomingHTLCs)
 
@@ -399,6 +466,8 @@ func (c *c5Ctx) closeLocal(p string, sh *LightningChannel) c5Line {
 func (c *c5Ctx) closeRemote(p string, w int, sh *LightningChannel, peerLive *LightningChannel) (c5Line, bool) {
 	ln := c5Line{vEv: vEv{A: "CloseCheck", P: p, X: w}, Res: []c5Res{}, Commit: -1}
 	ln.Self = c5Self{Ok: -1, Lo: -1, Cl: -1, Desc: -1}
+	ln.Anc, ln.APre = c5Anc{Idx: -1, Desc: -1, Ok: -1}, c5Anc{Idx: -1, Desc: -1, Ok: -1}
+	ln.CKey = -1
 	st := sh.channelState
 	rc := st.RemoteCommitment
 	point := st.RemoteCurrentRevocation
@@ -430,6 +499,7 @@ func (c *c5Ctx) closeRemote(p string, w int, sh *LightningChannel, peerLive *Lig
 		}
 	}
 	txid := spendTx.TxHash()
+	ln.APre = c5AnchorPre(sh, w, spendTx)
 	sum, err := NewUnilateralCloseSummary(st, sh.Signer, &chainntnfs.SpendDetail{
 		SpenderTxHash: &txid, SpendingTx: spendTx, SpendingHeight: c5Height,
 	}, rc, point, sh.leafStore, sh.auxResolver)
@@ -438,6 +508,7 @@ func (c *c5Ctx) closeRemote(p string, w int, sh *LightningChannel, peerLive *Lig
 		return ln, true
 	}
 	ct := st.ChanType
+	ln.Anc = c5Anchor(sum.AnchorResolution, spendTx, ct, sh.Signer)
 	ln.NOut, ln.NIn = len(sum.HtlcResolutions.OutgoingHTLCs), len(sum.HtlcResolutions.IncomingHTLCs)
 	direct := func(dir int, stx *wire.MsgTx, op wire.OutPoint, csv, expiry uint32, sd *input.SignDescriptor) c5Res {
 		r := c5Res{Dir: dir, Hi: -1, Idx: int64(op.Index), E1lo: -1, Cltv: -1, Agg: -1, E2: -1, E2lo: -1, E2cl: -1,
